@@ -27,7 +27,10 @@ Clauses(it) ==
           <<"sample_interval", H.sample_interval = (IF MicrosecondDt(ver) \/ F.dim = 2 THEN T.dz_us ELSE T.dz_us \div 1000)>>,
           <<"bits_per_voxel", IF H.bits_per_voxel > 0 THEN F.ub * 8 = vox * H.bits_per_voxel
                               ELSE H.bits_per_voxel < 0 /\ F.ub * 8 * (0 - H.bits_per_voxel) = vox>>,
-          <<"blockshape", H.blockshape_il = F.b[1] /\ H.blockshape_xl = F.b[2] /\ H.blockshape_z = F.b[3]>>,
+          \* (the very first files have no blockshape fields: zeros stand for 4 x 4 x one disk block of samples)
+          <<"blockshape", \/ H.blockshape_il = F.b[1] /\ H.blockshape_xl = F.b[2] /\ H.blockshape_z = F.b[3]
+                          \/ /\ ver[1] = 0 /\ ver[2] = 0 /\ ver[3] = 0 /\ H.blockshape_il = 0 /\ H.blockshape_xl = 0 /\ H.blockshape_z = 0
+                             /\ F.b[1] = 4 /\ F.b[2] = 4 /\ F.b[3] * F.ub = 16384>>,
           <<"data_blocks", H.data_blocks = DataBlocks(F)>>,
           <<"entry_bytes", H.entry_bytes = EntryBytes(F)>>,
           <<"tracecount", PaddedFooter(ver) => H.tracecount = T.F.ntr>>,
